@@ -28,8 +28,8 @@ func (c *Ctx) lruMethods() []*ssa.Function {
 			c.R.Funcs[n] = true
 		}
 	}
-	if len(out) < 10 {
-		panic(anchorErr{"methods of cache/lru.Cache (found fewer than 10)"})
+	if len(out) < 8 {
+		panic(anchorErr{"methods of cache/lru.Cache (found fewer than 8)"})
 	}
 	return out
 }
@@ -119,8 +119,11 @@ func runC16(c0 *Ctx) {
 			}
 			c.mustPrecede(fn, isFront, "ll.PushFront / ll.MoveToFront", isOK, "a successful return", 1)
 		}
-		ev := c.fn("(*cache/lru.Cache[K, V]).evict")
-		rm := find(ev, callTo(remove))
+		evs, evFolded := c.hostsOf("(*cache/lru.Cache[K, V]).evict")
+		ev := evs[0]
+		rm := find(ev, func(in ssa.Instruction) bool {
+			return callTo(remove)(in) && (!evFolded || ir.LoopHeaderOf(in.Block()) != nil)
+		})
 		okv := len(rm) >= 1
 		for _, in := range rm {
 			a := argsOf(in)
@@ -134,7 +137,10 @@ func runC16(c0 *Ctx) {
 	c0.rule("C16.G1", "capacity: Put adds the new entry's size and links it only after evict(vs)=nil and with vs <= capacity; evict returns success only once capacity-size >= needed and subtracts each evicted element's own Size()", func() {
 		c := c0.onCache()
 		put := c.fn("(*cache/lru.Cache[K, V]).Put")
-		evict := c.method("cache/lru", "Cache", "evict")
+		// evict, or the eviction loop written out in Put
+		evict := c.P.Method("cache/lru", "Cache", "evict")
+		ef := c.P.Func("(*cache/lru.Cache[K, V]).evict")
+		folded := evict == nil || ef == nil
 		sizeF := c.field("cache/lru", "Cache", "size")
 		capF := c.field("cache/lru", "Cache", "capacity")
 		pushFront := c.method("cache/lru", "List", "PushFront")
@@ -146,8 +152,11 @@ func runC16(c0 *Ctx) {
 			return ok && b.Op == token.ADD
 		})
 		eff := append(find(put, callTo(pushFront)), adds...)
-		ev := find(put, callTo(evict))
-		c.guarded(put, errNil("c.evict(vs)", ev, 1), 1, "size += vs / ll.PushFront", eff, 2, gDominate)
+		var ev []ssa.Instruction
+		if !folded {
+			ev = find(put, callTo(evict))
+			c.guarded(put, errNil("c.evict(vs)", ev, 1), 1, "size += vs / ll.PushFront", eff, 2, gDominate)
+		}
 		sizeM := func(v ssa.Value) bool {
 			return ir.DerivesFrom(v, func(x ssa.Value) bool {
 				call, ok := x.(*ssa.Call)
@@ -160,34 +169,58 @@ func runC16(c0 *Ctx) {
 		}
 		c.guarded(put, g, 1, "size += vs / ll.PushFront", eff, 2, gDominate)
 		// the size added and the size evicted-for are the new value's size
-		okArg := len(ev) == 1 && len(adds) == 1
-		if okArg {
-			a := argsOf(ev[0])[0]
-			b := adds[0].(*ssa.Store).Val.(*ssa.BinOp)
-			okArg = (b.X == a || b.Y == a) && sizeM(a)
-		}
-		c.verdict(okArg, c.nm(put)+" | evict(vs) and size += vs use the same vs = value.Size()", c.P.Pos(put.Pos()), "same SSA value", "the size made room for is not the size added")
-
-		ef := c.fn("(*cache/lru.Cache[K, V]).evict")
-		// success returns only when room is available
-		var okRets []ssa.Instruction
-		for _, in := range find(ef, isExit) {
-			if ir.IsNil(ir.RetVal(in.(*ssa.Return), 1)) {
-				okRets = append(okRets, in)
-			}
-		}
 		isRoom := func(v ssa.Value) bool {
 			b, ok := v.(*ssa.BinOp)
 			return ok && b.Op == token.SUB && loadsField(capF)(b.X) && loadsField(sizeF)(b.Y)
 		}
-		g2, odd2 := lessFalse("capacity-size < needed", ef, isRoom, isParam(ef, 1))
+		okArg := len(adds) == 1
+		var needed func(ssa.Value) bool
+		inEvict := func(in ssa.Instruction) bool { return true }
+		if folded {
+			ef = put
+			// needed = the very value that is added afterwards
+			var added ssa.Value
+			if okArg {
+				b := adds[0].(*ssa.Store).Val.(*ssa.BinOp)
+				added = b.Y
+				if loadsField(sizeF)(b.Y) {
+					added = b.X
+				}
+				okArg = sizeM(added)
+			}
+			needed = func(v ssa.Value) bool { return added != nil && ir.Strip(v) == ir.Strip(added) }
+			inEvict = func(in ssa.Instruction) bool { return ir.LoopHeaderOf(in.Block()) != nil }
+		} else {
+			c.R.Funcs[c.nm(ef)] = true
+			okArg = okArg && len(ev) == 1
+			if okArg {
+				a := argsOf(ev[0])[0]
+				b := adds[0].(*ssa.Store).Val.(*ssa.BinOp)
+				okArg = (b.X == a || b.Y == a) && sizeM(a)
+			}
+			needed = isParam(ef, 1)
+		}
+		c.verdict(okArg, c.nm(put)+" | evict(vs) and size += vs use the same vs = value.Size()", c.P.Pos(put.Pos()), "same SSA value", "the size made room for is not the size added")
+
+		// success only when room is available
+		g2, odd2 := lessFalse("capacity-size < needed", ef, isRoom, needed)
 		if len(odd2) > 0 {
 			c.fail(c.nm(ef)+" | room comparison shape", c.P.Pos(ef.Pos()), "free room compared with the needed size by an unexpected operator: "+join(odd2))
 		}
-		c.guarded(ef, g2, 1, "return (evicted, nil)", okRets, 1, gDominate)
+		if folded {
+			c.guarded(put, g2, 1, "size += vs / ll.PushFront", eff, 2, gDominate)
+		} else {
+			var okRets []ssa.Instruction
+			for _, in := range find(ef, isExit) {
+				if ir.IsNil(ir.RetVal(in.(*ssa.Return), 1)) {
+					okRets = append(okRets, in)
+				}
+			}
+			c.guarded(ef, g2, 1, "return (evicted, nil)", okRets, 1, gDominate)
+		}
 		// size decremented by the evicted element's own size
 		subs := find(ef, func(in ssa.Instruction) bool {
-			if !storeToField(sizeF)(in) {
+			if !storeToField(sizeF)(in) || !inEvict(in) {
 				return false
 			}
 			b, ok := in.(*ssa.Store).Val.(*ssa.BinOp)
@@ -204,7 +237,7 @@ func runC16(c0 *Ctx) {
 		}
 		c.verdict(okSub, c.nm(ef)+" | size -= Size() of the element taken from ll.Back()", c.P.Pos(ef.Pos()), "decrement is the evicted element's own size", "size is not decremented by the evicted element's own Size()", c.ats(subs)...)
 		// the element whose size was subtracted is the one removed
-		rm := find(ef, callTo(remove))
+		rm := find(ef, func(in ssa.Instruction) bool { return callTo(remove)(in) && inEvict(in) })
 		okRm := len(rm) >= 1
 		for _, r := range rm {
 			if !ir.DerivesFrom(ir.CallOf(r).Args[1], valIsCallTo(back)) {
@@ -214,7 +247,7 @@ func runC16(c0 *Ctx) {
 		c.verdict(okRm, c.nm(ef)+" | removed element = ll.Back()", c.P.Pos(ef.Pos()), "evicts the least recently used element", "evict removes an element other than ll.Back()", c.ats(rm)...)
 		g3 := errNil("evicted value.Size()", find(ef, func(in ssa.Instruction) bool {
 			call, ok := in.(*ssa.Call)
-			return ok && call.Call.IsInvoke() && call.Call.Method.Name() == "Size"
+			return ok && call.Call.IsInvoke() && call.Call.Method.Name() == "Size" && inEvict(in)
 		}), 1)
 		c.guarded(ef, g3, 1, "size -= es / ll.Remove", append(subs, rm...), 2, gDominate)
 	})
